@@ -112,9 +112,10 @@ WellTyped(m, form, chain) == TypeChecks(form, chain, m # "t0")
 C02Leaves(Ms, Fs, Cs) == { l \in { Leaf1(m, f, {0}, c) : m \in Ms, f \in Fs, c \in Cs } : WellTyped(l.m, l.form, l.pats[1].chain) }
 C02LeavesQ == C02Leaves({"r1"}, Forms, Chains1(KindsQ, {0, 2}) \cup Chains2(KindsQ, {0, 2}))
               \cup C02Leaves({"t0"}, {"some", "next"}, Chains1({"val", "answer"}, {2}) \cup Chains2({"val", "answer", "panic"}, {1}))
-C02LeavesT == C02Leaves({"r1", "d1"}, Forms, Chains1(KindsT, 0..3) \cup Chains2(KindsT, 0..2))
-              \cup C02Leaves({"r0"}, {"each", "next"}, Chains3({"val", "answer"}, 0..2))
-              \cup C02Leaves({"t0", "b0"}, Forms, Chains1({"val", "answer"}, 0..2) \cup Chains2({"val", "answer", "panic"}, 0..2))
+C02LeavesT == C02Leaves({"r1"}, Forms, Chains1(KindsT, 0..3) \cup Chains2(KindsQ \cup {"default"}, {0, 1, 3}))
+              \cup C02Leaves({"d1"}, {"each", "next"}, Chains1({"val", "dflt", "unmock", "answer_arc"}, {0, 2}))
+              \cup C02Leaves({"r0"}, {"each", "next"}, Chains3({"val", "answer"}, {0, 1, 2}))
+              \cup C02Leaves({"t0", "b0"}, Forms, Chains1({"val", "answer"}, 0..2) \cup Chains2({"val", "answer", "panic"}, {0, 2}))
 
 \* ---------------- C03: verdict iff unmet ----------------
 C03Chains == { <<V("none", 0)>>, <<V("once", 0)>>, <<V("n", 0)>>, <<V("n", 2)>>, <<V("atleast", 1)>>, <<V("atleast", 2)>>,
